@@ -430,6 +430,43 @@ func runC14(c *Ctx) {
 			}
 		}
 	}
+	// mode 0 with a PREFIXED instruction supplied by the device: each of its opcode bytes is
+	// an opcode fetch like any other (2, or 2..3 for DDCB/FDCB), plus at most one count for
+	// the acknowledge cycle itself; bit 7 and I untouched
+	{
+		r := mon.NewRng(uint64(c.Seed) ^ 0xC14A)
+		mem := &mon.Mem{}
+		mem.Fill(r.U64())
+		supplied := [][]uint8{{0xed, 0x44}, {0xcb, 0x07}, {0xcb, 0x47}, {0xdd, 0x23}, {0xfd, 0x2b}, {0xdd, 0x24}, {0xed, 0x6f}, {0xdd, 0xcb, 0x01, 0x06}, {0xfd, 0xcb, 0xff, 0x46}}
+	prefixed:
+		for r0 := 0; r0 < 256; r0++ {
+			for _, ins := range supplied {
+				pre := RandStates(r)
+				pre.IR.Lo = uint8(r0)
+				pre.IM, pre.IFF1 = 0, true
+				pre.HL.SetU16(0x4000)
+				pre.IX, pre.IY = 0x5000, 0x6000
+				mem.Reset()
+				cpu := z80.CPU{States: pre, Memory: mem, Interrupt: z80.IM0Interrupt(ins[0], ins[1:]...)}
+				cpu.Step()
+				accN++
+				if cpu.Interrupt != nil {
+					continue
+				}
+				d := (cpu.IR.Lo - pre.IR.Lo) & 0x7f
+				lo, hi := uint8(2), uint8(3)
+				if len(ins) == 4 {
+					hi = 4
+				}
+				if cpu.IR.Lo&0x80 != pre.IR.Lo&0x80 || cpu.IR.Hi != pre.IR.Hi || d < lo || d > hi {
+					c.R.Violation("C14/acceptance/mode0-prefixed", map[string]interface{}{
+						"what":                 fmt.Sprintf("a mode-0 device supplied a prefixed instruction: R advanced by %d, want %d..%d opcode fetches (and bit 7 / I untouched)", d, lo, hi),
+						"supplied_instruction": HexBytes(ins), "pre": DumpState(&pre, false), "post": DumpState(&cpu.States, cpu.HALT)})
+					break prefixed
+				}
+			}
+		}
+	}
 	c.R.Set("acceptance_steps", accN)
 	evals += accN
 
